@@ -299,12 +299,14 @@ class Validator:
                 lo = min(s.addr for s in tsecs)
                 hi = max(s.addr + s.size for s in tsecs)
                 al = max(max(s.addralign for s in tsecs), 1)
-                if tls.align > 1 and pow2(tls.align) and tls.vaddr % tls.align:
+                if al > 1 and tls.vaddr % al and tls.vaddr == lo:
+                    # (judged on non-empty sections only: lld 14 itself leaves p_vaddr unaligned when the strict
+                    # alignment comes from an *empty* TLS section or the segment starts with an empty .tdata)
                     # The x86-64 TLS ABI computes TP offsets as if the template started p_align-aligned and glibc's
                     # static start-up (csu/libc-tls.c) places it so; GNU ld and lld always align the first TLS section
                     # to the segment's alignment.
-                    raise Bad("PT_TLS-vaddr-misaligned", f"PT_TLS p_vaddr={tls.vaddr:#x} is not a multiple of its "
-                              f"p_align={tls.align:#x} (TLS sections: "
+                    raise Bad("PT_TLS-vaddr-misaligned", f"PT_TLS p_vaddr={tls.vaddr:#x} is not a multiple of {al:#x}, the "
+                              f"strictest alignment of the non-empty TLS sections it holds (p_align={tls.align:#x}; TLS sections: "
                               f"{[(s.name, hex(s.addr), s.size, s.addralign) for s in e.sections if s.flags & E.SHF_TLS]})")
                 lo_all = min(s.addr for s in e.sections if s.flags & E.SHF_TLS and s.flags & E.SHF_ALLOC)
                 if tls.vaddr not in (lo, lo_all):
